@@ -1,6 +1,6 @@
 SPECIFICATION GenSpec
-CONSTANTS SmallIds = {1, 2} Widths = {1} MaxTok = 4 MaxSlots = 9
-  Texts <- CTexts HRs <- CHRs
+CONSTANTS SmallIds = {1, 2} Widths = {1} MaxTok = 2 MaxSlots = 9
+  Texts <- CTexts1 HRs <- CHRs
 CONSTRAINT Bound
 VIEW Skel
 ACTION_CONSTRAINT Emit
